@@ -108,7 +108,6 @@ UNITS = {
                                           "C14_leaves_agree_source", "C11_valid_graph_source", "C11_valid_graph_empty_source"]},
     },
     "coding": {
-        "enabled": False,                      # switched on once every proof file of the unit is complete
         "functions": translate_minipy.CODING_FUNCS,
         "generate": lambda repo, d: translate_minipy.generate_coding(repo, os.path.join(d, "CodingGen.v")),
         "refuse": translate_minipy.Refuse,
@@ -117,7 +116,11 @@ UNITS = {
                    ["CodingKnotGenProofs.v"]],
         "deps": ["Py.v", "Kmer.v", "Convert.v", "Graph.v", "Spec.v", "GraphSpec.v", "MiniPyH.v", "MiniPyHEnc.v", "Proofs/MiniPyHLemmas.v",
                  "Proofs/KmerProofs.v", "Proofs/GraphProofs.v", "Proofs/GenerateProofs.v", "Proofs/GeneratedProofs.v"],
-        "theorems": {},
+        "theorems": {"CodingKmerGenProofs.v": ["obtain_latters_gen", "obtain_formers_gen"],
+                     "CodingVerticesGenProofs.v": ["obtain_vertices_gen"],
+                     "CodingGraphGenProofs.v": ["connect_coding_graph_gen_ok", "connect_coding_graph_gen_raise"],
+                     "CodingKnotGenProofs.v": ["coding_callees", "py4_connect_coding_graph_ok", "py4_connect_coding_graph_raise",
+                                               "C03_source", "C04_no_dead_end_source", "C04_no_dead_end_source_any"]},
     },
     "repair": {
         "enabled": False,                      # switched on once every proof file of the unit is complete
